@@ -98,6 +98,110 @@ def r1(ctx):
     return fn, ms
 
 
+def _create_skip_map(c, cf):
+    """The internal skip table built by Feedback::create, decided on its E6 effect summary for each of the four (inskips, outskips)
+    settings: the inserts into `connect` are exactly  i*length -> [0] for i in 1..loops  iff inskips, and
+    loops*length -> [i*length for i in 1..loops] (in order) iff outskips.  Independent of whether one loop or two build it."""
+    from .. import e6
+    E = e6.Exec(c, cf)
+    fpaths = [p for p in E.run_fn() if p.exit is None or p.exit[0] == "return"]
+    IN, OUT = ("p", "inskips"), ("p", "outskips")
+    LEN = ("call", "std::vec::Vec::<T, A>::len", (("p", "layers"),))
+    LOOPS = ("p", "loops")
+
+    def truth(t, asg):
+        if t == IN:
+            return asg[0]
+        if t == OUT:
+            return asg[1]
+        if isinstance(t, tuple) and t:
+            if t[0] == "un" and t[1] == "Not":
+                v = truth(t[2], asg)
+                return None if v is None else (not v)
+            if t[0] == "bin" and t[1] in ("And", "Or"):
+                l, r = truth(t[2], asg), truth(t[3], asg)
+                if l is None or r is None:
+                    return None
+                return (l and r) if t[1] == "And" else (l or r)
+        return None
+
+    def consistent(pc, asg):
+        for (t, pol) in pc:
+            v = truth(t, asg)
+            if v is not None and v != pol:
+                return False
+        return True
+
+    def length_of(t):
+        """normalise `length` (a let-bound len(layers)) to LEN"""
+        return t
+
+    def inserts(effs, asg, dom, out):
+        for e in effs:
+            if e[0] == "mut" and e[1].rsplit("::", 1)[-1] == "insert" and e[2] == ("local", "connect") and len(e[3]) == 2:
+                out.append((dom, e[3][0], e[3][1]))
+            elif e[0] == "loop":
+                S = E.loop_summaries[e[1]]
+                for bp in S["paths"]:
+                    if bp.exit is None and consistent(bp.pc, asg):
+                        inserts(bp.eff, asg, (e[1], S.get("iter")), out)
+        return out
+
+    def seq_value(v, asg):
+        """[f(i) for i in D] built by a push loop (possibly conditional on the flags) or by map/collect -> (D, f(elem), elem)"""
+        es = e6.elementwise_sequence(E, v)
+        if es is not None:
+            return es
+        if isinstance(v, tuple) and len(v) == 4 and v[0] == "loopout":
+            S = E.loop_summaries.get(v[2])
+            if S is None or S.get("kind") != "for" or not (e6.is_call(v[3], "new", 0) is not None or e6.is_call(v[3], "with_capacity", 1) is not None):
+                return None
+            kept = [bp for bp in S["paths"] if consistent(bp.pc, asg)]
+            vals = set()
+            for bp in kept:
+                if bp.exit is not None:
+                    return None
+                ps = [f[2] for f in bp.eff if f[0] == "push" and f[1] == ("local", v[1])]
+                if len(ps) != 1:
+                    return None
+                vals.add(ps[0])
+            if len(vals) == 1:
+                return S["iter"], list(vals)[0], ("elem", S["iter"], v[2])
+        return None
+    ok_in = ok_out = bool(fpaths)
+    got = []
+    for asg in ((True, True), (True, False), (False, True), (False, False)):
+        for p in fpaths:
+            if not consistent(p.pc, asg):
+                continue
+            ins = inserts(p.eff, asg, None, [])
+            in_like = [x for x in ins if x[0] is not None]
+            out_like = [x for x in ins if x[0] is None]
+            # input skips
+            good_in = False
+            if asg[0]:
+                if len(in_like) == 1:
+                    (lid, it), key, val = in_like[0]
+                    el = ("elem", it, lid)
+                    good_in = e6.range_of(it) == (("lit", "1"), LOOPS) and key == e6.mk_bin("Mul", el, LEN) and val == ("vec", (("lit", "0"),))
+            else:
+                good_in = not in_like
+            # output skips
+            good_out = False
+            if asg[1]:
+                if len(out_like) == 1:
+                    _, key, val = out_like[0]
+                    sv = seq_value(val, asg)
+                    good_out = key == e6.mk_bin("Mul", LOOPS, LEN) and sv is not None and e6.range_of(sv[0]) == (("lit", "1"), LOOPS) and sv[1] == e6.mk_bin("Mul", sv[2], LEN)
+            else:
+                good_out = not out_like
+            if not good_in or not good_out:
+                got.append("inskips=%s,outskips=%s: %s" % (asg[0], asg[1], "; ".join("%s%s -> %s" % ("for %s: " % e6.show(x[0][1], 2) if x[0] else "", e6.show(x[1], 2), e6.show(x[2], 2)[:50]) for x in ins) or "no insert"))
+            ok_in = ok_in and good_in
+            ok_out = ok_out and good_out
+    return ok_in, ok_out, got[:3]
+
+
 def _arm_summary(c, body, tgt):
     """what an accumulation arm does, independent of spelling: primitives applied to the target, and how the sources are taken"""
     prims = sorted({x["callee"].split("::")[-1] for x in walk(body) if x.get("k") == "mcall" and x["callee"] in INPLACE and pretty(strip(x["recv"])) == tgt})
@@ -123,34 +227,9 @@ def r2(ctx, fn, ms):
     c = ctx.crate
     cf = ctx.fn(FB + "create")
     P = {pat_binds(p)[0][0]: pat_binds(p)[0][1] for p in cf["params"] if pat_binds(p)}
-    ins = [x for x in walk(cf["body"]) if x.get("k") == "mcall" and x["name"] == "insert" and pretty(strip(x["recv"])) == "connect"]
-    env = {}
-    for s in walk(cf["body"]):
-        if s.get("k") == "let" and s["pat"].get("k") == "bind" and s["pat"]["name"] == "length":
-            env[s["pat"]["hid"]] = Rat.atom("length")
-    fors = [x for x in walk(cf["body"]) if x.get("k") == "for" and any(y in ins for y in walk(x["body"]))]
-    ok_in = ok_out = False
-    got = []
-    if len(fors) == 1 and len(ins) == 2:
-        lp = fors[0]
-        it = strip(lp["iter"])
-        iv = pat_binds(lp["pat"])[0][1]
-        env[iv] = Rat.atom("i")
-        rng = [pretty(strip(b)) for a, b in it["fs"]] if it.get("k") == "struct" else []
-        N = e1.Norm(c, env)
-        for x in ins:
-            key = N.norm(x["args"][0])
-            val = pretty(strip(x["args"][1]))
-            conds = _enclosing_ifs(cf["body"], x)
-            got.append("%s -> %s under %s" % (key, short(val, 40), conds))
-            if any(y is x for y in walk(lp["body"])):
-                ok_in = key == Rat.atom("i") * Rat.atom("length") and "[0]" in val and conds[-1:] == ["inskips"] and rng == ["1", "loops"]
-            else:
-                ok_out = key == Rat.atom("loops") * Rat.atom("length") and val == "outputs" and conds[-1:] == ["outskips"]
-        pushes = [x for x in walk(lp["body"]) if x.get("k") == "mcall" and x["name"] == "push" and pretty(strip(x["recv"])) == "outputs"]
-        ok_out = ok_out and len(pushes) == 1 and N.norm(pushes[0]["args"][0]) == Rat.atom("i") * Rat.atom("length") and _enclosing_ifs(cf["body"], pushes[0])[-1:] == ["outskips"]
-    ctx.check("R11.2", "create:input-skips", ok_in, "input-skip-wiring:" + ";".join(got)[:120], c.loc(cf), "{i*length: [0]} for i in 1..loops iff inskips")
-    ctx.check("R11.2", "create:output-skips", ok_out, "output-skip-wiring:" + ";".join(got)[:120], c.loc(cf), "{loops*length: [i*length..]} iff outskips")
+    ok_in, ok_out, got = _create_skip_map(c, cf)
+    ctx.check("R11.2", "create:input-skips", ok_in, "input-skip-wiring:" + short(";".join(got), 120), c.loc(cf), "{i*length: [0]} for i in 1..loops iff inskips")
+    ctx.check("R11.2", "create:output-skips", ok_out, "output-skip-wiring:" + short(";".join(got), 120), c.loc(cf), "{loops*length: [i*length for i in 1..loops]} iff outskips")
     # forward: keys
     lp = [x for x in walk(fn["body"]) if x.get("k") == "for" and "self.layers.iter().enumerate()" == pretty(strip(x["iter"]))]
     if len(lp) != 1:
